@@ -37,15 +37,16 @@ type Scenario struct {
 }
 
 type Options struct {
-	Bound    int  // preemption bound (ignored with HBCache)
-	HBCache  bool // unbounded exploration with happens-before state caching
-	MaxExec  int  // safety cap on executions (0 = none)
-	Deadline *run.Deadline
-	RaceLog  string // GORACE log_path prefix; empty = no race monitor
-	Shard    int
-	Shards   int
-	Slot     int
-	Property string
+	Bound       int  // preemption bound (ignored with HBCache)
+	HBCache     bool // unbounded exploration with happens-before state caching
+	MaxExec     int  // safety cap on executions (0 = none)
+	DefaultOnly bool // run the default schedule only (one execution)
+	Deadline    *run.Deadline
+	RaceLog     string // GORACE log_path prefix; empty = no race monitor
+	Shard       int
+	Shards      int
+	Slot        int
+	Property    string
 }
 
 type Stats struct {
@@ -241,6 +242,10 @@ func Explore(sc Scenario, opt Options, report func(c Case, f Finding)) Stats {
 		}
 		if st.Deadlocks > 200 {
 			st.Exhaustive = false // parked goroutines of deadlocked executions leak; the verdict is in, stop
+			break
+		}
+		if opt.DefaultOnly {
+			st.Mode = "default-schedule"
 			break
 		}
 		// expand alternatives
